@@ -22,6 +22,51 @@ def load_kernels():
     return ns
 
 
+def likelihood_kernels(R, K):
+    """converted likelihood kernels of cprobability.pyx against the pure-Python per-station likelihoods"""
+    import MTfit.probability.probability as pr
+    bad = None
+    n = R.n(600, 20000)
+    six = np.zeros((1, 1, 6))
+    six[0, 0, 0] = 1.0
+    for i in range(n):
+        x = R.rng.uniform(-2, 2) if i % 9 else 0.0
+        s, w = 10 ** R.rng.uniform(-2, 0.5), R.rng.uniform(0, 0.5)
+        mt = np.array([[x], [0.], [0.], [0.], [0.], [0.]])
+        R.count(('likelihood-kernel', i))
+        with np.errstate(all='ignore'):
+            py = float(np.exp(np.asarray(pr.polarity_ln_pdf(six, mt, np.array([s]), np.array([w]), _use_c=False)).flatten()[0]))
+            kc = float(K['pol_pdf'](x, s, w))
+            if not close(kc, py, 1e-9):
+                bad = bad or {'check': 'pol_pdf', 'x': x, 'sigma': s, 'mispick': w, 'kernel': kc, 'python': py}
+            p = R.rng.uniform(0, 1)
+            q = 1 - p if i % 3 else R.rng.uniform(0, 1 - p)
+            py = float(np.exp(np.asarray(pr.polarity_probability_ln_pdf(six, mt, np.array([p]), np.array([q]), np.array([w]), _use_c=False)).flatten()[0]))
+            kc = float(K['pol_prob_pdf'](x, p, q, w))
+            if not close(kc, py, 1e-9):
+                rec = {'check': 'pol_prob_pdf', 'x': x, 'positive': p, 'negative': q, 'mispick': w, 'kernel': kc, 'python': py}
+                if not (x == 0.0 and R.known_finding('pol_prob_pdf_at_zero', 'Cython pol_prob_pdf returns 0.5 at X = 0 where the Python path returns '
+                                                     '(p+ + p-)/2: they differ when the two probabilities do not sum to one, e.g. p+ = %r, p- = %r' % (p, q))):
+                    bad = bad or rec
+            z, mux, muy = R.rng.uniform(-3, 3), R.rng.uniform(-2, 2), R.rng.uniform(-2, 2)
+            psx, psy = 10 ** R.rng.uniform(-2, -0.3), 10 ** R.rng.uniform(-2, -0.3)
+            if abs(mux) > 1e-3 and abs(muy) > 1e-3:
+                a1, a2 = np.zeros((1, 1, 6)), np.zeros((1, 1, 6))
+                a1[0, 0, 0], a2[0, 0, 0] = mux, muy
+                m1 = np.array([[1.], [0.], [0.], [0.], [0.], [0.]])
+                py = float(np.exp(np.asarray(pr.amplitude_ratio_ln_pdf(np.array([z]), m1, a1, a2, np.array([psx]), np.array([psy]), _use_c=False)).flatten()[0]))
+                kc = float(K['ar_pdf'](z, mux, muy, psx, psy))
+                if not close(kc, py, 1e-7) and max(kc, py) > 1e-250:
+                    bad = bad or {'check': 'ar_pdf', 'z': z, 'mu_x': mux, 'mu_y': muy, 'errors': [psx, psy], 'kernel': kc, 'python': py}
+            s1, s2 = 10 ** R.rng.uniform(-3, 1), 10 ** R.rng.uniform(-3, 1)
+            m_1, m_2 = R.rng.uniform(0.1, 5), R.rng.uniform(0.1, 5)
+            cm, cs = pr.combine_mu(np.array([[m_1], [m_2]]), np.array([[s1], [s2]]))
+            if not (close(float(K['combine_mu'](m_1, m_2, s1, s2)), float(np.asarray(cm).flatten()[0]), 1e-12)
+                    and close(float(K['combine_s'](s1, s2)), float(np.asarray(cs).flatten()[0]), 1e-12)):
+                bad = bad or {'check': 'combine_mu/combine_s', 'mu': [m_1, m_2], 's': [s1, s2]}
+    return bad
+
+
 def run(R):
     C = conv.impl()
     proved = R.prove()
@@ -45,6 +90,9 @@ def run(R):
             (defs['ctk_uv'], lambda k, t: list(K['ctk_uv'](np.array([0, 0, 0, 0, 0, k, t, 0, 0, 0, 0, 0, 0.0]))), lambda rng: [rng.uniform(-1, 1), rng.uniform(-1, 1)]),
             (defs['cE_gd'], lambda a, b, c: list(K['cE_gd'](np.array([a, b, c]))), lambda rng: sorted([rng.uniform(-1, 1) for _ in range(3)], reverse=True)),
             (defs['cN_SDR'], lambda *a: list(K['cN_SDR'](*a)), lambda rng: list(conv.unit([rng.gauss(0, 1) for _ in range(3)])) + list(conv.unit([rng.gauss(0, 1) for _ in range(3)]))),
+            (defs['pol_prob_pdf'], lambda *a: [K['pol_prob_pdf'](*a)], lambda rng: [rng.choice([0.0, rng.uniform(-1, 1)]), rng.uniform(0, 1), rng.uniform(0, 1), rng.uniform(0, 0.5)]),
+            (defs['combine_mu'], lambda *a: [K['combine_mu'](*a)], lambda rng: [rng.uniform(0.1, 3) for _ in range(4)]),
+            (defs['combine_s'], lambda *a: [K['combine_s'](*a)], lambda rng: [rng.uniform(0.1, 3) for _ in range(2)]),
             (defs['cTape_MT6'], lambda *a: list(K['cTape_MT6'](np.zeros(6), *a)),
              lambda rng: [rng.uniform(-math.pi / 6, math.pi / 6), rng.uniform(-1.5, 1.5), rng.uniform(0, 2 * math.pi), rng.uniform(0, 1), rng.uniform(-1.5, 1.5)]),
         ]
@@ -87,6 +135,8 @@ def run(R):
             m_p = np.asarray(C.Tape_MT6(*par), dtype=float).flatten()
             if np.abs(m_c - m_p).max() > 1e-9:
                 bad = bad or {'check': 'cTape_MT6', 'params': par, 'kernel': m_c.tolist(), 'python': m_p.tolist()}
+    if K and not bad:
+        bad = likelihood_kernels(R, K)
     if bad:
         R.violation('Cython kernel %s (source level) disagrees with the pure-Python routine' % bad['check'], bad)
     R.cov['rule'] = ('source-level only: sorted eigenvalue triples incl. repeated and isotropic, (tau, k) inside and outside the diamond, random unit '
